@@ -83,6 +83,41 @@ RECURSIVE ExpIndep(_, _)
 ExpIndep(e, v) == CASE e.t \in {"num", "var"} -> TRUE [] e.t = "neg" -> ExpIndep(e.a, v)
                     [] e.t = "bin" -> ExpIndep(e.a, v) /\ ExpIndep(e.b, v)
                                       /\ (e.op # "**" \/ (~DependsOn(e.b, v) /\ Val(e.b)[1] /\ Val(e.b)[2][2] = 1 /\ Val(e.b)[2][1] >= 1))
+\* ---- conditional and logical expressions (C13) ----------------------------------------------------------------
+(* logical expressions:  [t |-> "cmp", op, a, b]  (op in < <= > >= ==, a and b arithmetic trees)
+                         [t |-> "and", a, b]  [t |-> "or", a, b]  [t |-> "not", a]
+   conditional:          [t |-> "cond", c, a, b]   value of a if c holds, of b otherwise
+   Concrete syntax: the usual convention - a comparison binds tighter than "&&", which binds tighter than "||"; "!" is only
+   written in front of a parenthesised logical expression; a conditional expression inside an arithmetic one is
+   parenthesised (nested conditionals without parentheses are refused by the evaluator, documented). *)
+CmpOps == {"<", "<=", ">", ">=", "=="}
+Cmp(op, a, b) == [t |-> "cmp", op |-> op, a |-> a, b |-> b]
+And(a, b) == [t |-> "and", a |-> a, b |-> b]
+Or(a, b) == [t |-> "or", a |-> a, b |-> b]
+Not(a) == [t |-> "not", a |-> a]
+Cond(c, a, b) == [t |-> "cond", c |-> c, a |-> a, b |-> b]
+RECURSIVE Holds(_)
+Holds(c) ==
+  CASE c.t = "cmp" -> (LET a == Val(c.a)[2] b == Val(c.b)[2] IN
+                       IF c.op = "<" THEN RLt(a, b) ELSE IF c.op = "<=" THEN RLe(a, b) ELSE IF c.op = ">" THEN RLt(b, a)
+                       ELSE IF c.op = ">=" THEN RLe(b, a) ELSE a = b)
+    [] c.t = "and" -> Holds(c.a) /\ Holds(c.b)
+    [] c.t = "or" -> Holds(c.a) \/ Holds(c.b)
+    [] c.t = "not" -> ~Holds(c.a)
+CondVal(e) == IF Holds(e.c) THEN Val(e.a)[2] ELSE Val(e.b)[2]
+RECURSIVE PrL(_), PrLFull(_)
+PrL(c) ==
+  CASE c.t = "cmp" -> PrMin(c.a, "") \o c.op \o PrMin(c.b, "")
+    [] c.t = "and" -> (IF c.a.t = "or" THEN P(PrL(c.a)) ELSE PrL(c.a)) \o "&&" \o (IF c.b.t = "or" THEN P(PrL(c.b)) ELSE PrL(c.b))
+    [] c.t = "or" -> PrL(c.a) \o "||" \o PrL(c.b)
+    [] c.t = "not" -> "!" \o P(PrL(c.a))
+PrLFull(c) ==
+  CASE c.t = "cmp" -> P(PrFull(c.a) \o c.op \o PrFull(c.b))
+    [] c.t = "and" -> P(PrLFull(c.a) \o " && " \o PrLFull(c.b))
+    [] c.t = "or" -> P(PrLFull(c.a) \o " || " \o PrLFull(c.b))
+    [] c.t = "not" -> "!" \o P(PrLFull(c.a))
+PrCond(e) == PrL(e.c) \o "?" \o PrMin(e.a, "") \o ":" \o PrMin(e.b, "")
+PrCondFull(e) == PrLFull(e.c) \o " ? " \o PrFull(e.a) \o " : " \o PrFull(e.b)
 \* theorems of the oracle: printing then reading by the documented rules is the identity on a few examples
 Theorems == /\ PrMin(Bin("-", Num(1), Bin("-", Num(2), Var("x"))), "") = "1-(2-x)"
             /\ PrMin(Bin("-", Bin("-", Num(1), Num(2)), Var("x")), "") = "1-2-x"
@@ -92,6 +127,10 @@ Theorems == /\ PrMin(Bin("-", Num(1), Bin("-", Num(2), Var("x"))), "") = "1-(2-x
             /\ PrMin(Bin("/", Num(8), Bin("/", Num(2), Num(2))), " ") = "8 / (2 / 2)"
             /\ Val(Bin("**", Neg(Var("x")), Num(2)))[2] = RI(4) /\ Val(Neg(Bin("**", Var("x"), Num(2))))[2] = RI(-4)
             /\ Val(D(Bin("/", Var("x"), Bin("+", Var("x"), Var("y"))), "x"))[2] = <<3, 25>>
+            /\ PrL(Or(Cmp("<", Var("x"), Var("y")), And(Cmp("<", Var("y"), Var("x")), Cmp("==", Var("x"), Num(2))))) = "x<y||y<x&&x==2"
+            /\ PrL(And(Or(Cmp("<", Var("x"), Var("y")), Cmp("<", Var("y"), Var("x"))), Cmp("==", Var("x"), Num(3)))) = "(x<y||y<x)&&x==3"
+            /\ Holds(Or(Cmp("<", Var("x"), Var("y")), And(Cmp("<", Var("y"), Var("x")), Cmp("==", Var("x"), Num(3)))))
+            /\ ~Holds(And(Or(Cmp("<", Var("x"), Var("y")), Cmp("<", Var("y"), Var("x"))), Cmp("==", Var("x"), Num(3))))
             /\ ExpIndep(Bin("**", Var("x"), Var("y")), "x") /\ ~ExpIndep(Bin("**", Var("x"), Var("y")), "y")
             /\ Val(D(Bin("**", Var("x"), Var("y")), "x"))[2] = RI(12)                     \* y*x**(y-1) at (2, 3)
 =============================================================================
